@@ -20,7 +20,8 @@ The rest of the quantifier of C16 (every route × query × stream state, mutated
 is *explored* by the harness (`fuzz_http`, `fuzz_mp4`), and labelled so in the evidence.
 -/
 namespace DashLive.C16
-open DashLive.Options DashLive.OptionErrors DashLive.Inject
+open DashLive.OptionErrors DashLive.Inject
+open DashLive.Options (Bytes Val DTCodec OptionRow Kind LocSet ascii findRow)
 
 /-! ## 1. the option layer -/
 
